@@ -39,7 +39,7 @@ def chain_mesh(nd, nlev):
 
 FIELDSETS = [["temp"], ["a", "b", "a", "a_2"], ["density", "density", "density"], ["Y(H2)", "Y(O2)", "temp", "Z", "Zvar"],
              ["x", "grid_level", "all"], ["\u03c9_z", "\u0394\u03c1", "Y(H\u2082O)", "mass fraction", "T", "t"],
-             ["q%03d" % i for i in range(120)]]
+             ["q%03d" % i for i in range(120)], ["temp", "temp ", " density", "\tmag_vort", "mass fraction", "  "]]
 
 
 def cases(tier, seed):
